@@ -120,6 +120,10 @@ static Case* g_c = nullptr;
 
 static void nativeJitter(long j, long tag) {
   if (!g_native) return;
+  // a stage whose limit equals the pool size is made slow: its backlog then outlives the generator, the calling thread starts helping,
+  // and numT + 1 threads compete for numT slots -- the one configuration in which only the limiter keeps the bound
+  if (j >= 0 && static_cast<size_t>(j) < g_c->st.size() && g_c->numT >= 2 && g_c->st[static_cast<size_t>(j)].limit == g_c->numT)
+    std::this_thread::sleep_for(std::chrono::microseconds(300));
   long h = (tag * 7 + j * 3) % 5;
   if (h == 0) std::this_thread::sleep_for(std::chrono::microseconds(30));
   else if (h == 1) std::this_thread::yield();
